@@ -51,6 +51,17 @@ def clean_requests(rng, thorough):
             reqs.append(kw + b"0" * (nd - 1) + b"7\0")
         for v in (0, 1, 7, 12, 2**31 - 1, 2**31, 2**32 - 1, 2**32, 2**32 + 1, 2**63 - 1, 2**63, 2**64 - 1, 2**64, 2**64 + 1, 10**25 + 12):
             reqs.append(kw + str(v).encode() + b"\0")
+        # numbers that only an overflowing conversion could take for the number of a message that exists (12, 21, 33): multiples of
+        # 2^64 added, and digit strings that run through the last value before the overflow (1844674407370955161) with one more digit
+        for t in (12, 21, 33):
+            for k in (1, 2, 3, 10):
+                reqs.append(kw + str(k * 2**64 + t).encode() + b"\0")
+            reqs.append(kw + b"18446744073709551616" + str(t).encode() + b"\0")
+            reqs.append(kw + b"1844674407370955161" + str(6 + int(str(t)[0])).encode() + str(t)[1:].encode() + b"\0")
+            reqs.append(kw + b"1844674407370955161" + str(6 + int(str(t)[0])).encode() + str(t)[1:].encode() + b"000\0")
+        for d in range(10):
+            reqs.append(kw + b"1844674407370955161" + str(d).encode() + b"\0")
+            reqs.append(kw + b"1844674407370955160" + str(d).encode() + b"\0")
         reqs.append(kw + b"12x\0"); reqs.append(kw + b"x12\0"); reqs.append(kw + b"1x2\0"); reqs.append(kw + b"12 \0")
         reqs.append(kw + b"-12\0"); reqs.append(kw + b"+12\0"); reqs.append(kw + b"12/../../x\0"); reqs.append(kw + b"../12\0")
     for _ in range(400 if thorough else 150):
